@@ -133,7 +133,7 @@ class C07(Check):
             if any(a.get("err") == impl["err"] for a in alts):
                 return None
             if any(a.get("err") == impl["err"] for a in model.get("near", [])):
-                return "TIE: float near-tie (reproduced when every LP optimum is nudged by 1e-10)"
+                return "TIE: float near-tie (reproduced when every LP optimum is nudged by 1e-10 or every LP is solved inside |v| <= 1e9: float near-tie or a slope below float resolution)"
             return f"impl {impl['err']} vs model {[a.get('err', 'ok') for a in alts]}"
         w = G.w_tl(impl["ok"], vm)
         for a in alts:
@@ -141,7 +141,7 @@ class C07(Check):
                 return None
         for a in model.get("near", []):
             if "ok" in a and C.tls_close(w, a["ok"]):
-                return "TIE: float near-tie (reproduced when every LP optimum is nudged by 1e-10)"
+                return "TIE: float near-tie (reproduced when every LP optimum is nudged by 1e-10 or every LP is solved inside |v| <= 1e9: float near-tie or a slope below float resolution)"
         if alts[0] != {k: v for k, v in alts[1].items()} and json_ne(alts[0], alts[1]):
             return "TIE: implementation resolved exact ties in a mixed way"
         return f"impl kept {len(impl['ok'])} rows, model {[len(a['ok']) if 'ok' in a else a.get('err') for a in alts]}"
@@ -196,7 +196,9 @@ class C07(Check):
             others = r[:j] + r[j + 1:]
             if not others and not ctx:
                 continue
-            st, m, pt = J.exact_max(t["c"], ctx + others, box=J.BOX)
+            # droppable = implied by the others EVERYWHERE (no box: a row implied only inside |v| <= 1000 is not redundant, dropping it
+            # would change the meaning outside the box)
+            st, m, pt = J.exact_max(t["c"], ctx + others)
             if st == "infeasible":
                 continue
             k = C.q(t["k"])
